@@ -98,7 +98,7 @@ fn gen_layout(p: &mut Prng, high_ok: bool) -> Layout {
         stack_top: match p.below(4) {
             0 => 0x7ffc_1000_0000,
             1 => 0x7fff_ffff_f000,
-            2 => 0x2_0000,
+            2 => 0x40_0000,
             _ => {
                 if high_ok {
                     0xffff_c900_0000_8000
@@ -352,8 +352,17 @@ fn run_scenario<H: ArchH>(rep: &mut Report, p: &mut Prng, sc: &Scenario, id: u64
                 } else if let Some(a) = tail.strip_prefix("err:stack:") {
                     u64::from_str_radix(a, 16).map(|a| a >= cut).unwrap_or(false)
                 } else {
-                    // other errors are acceptable only where a rule-based step is not involved
-                    !judged
+                    // other errors are acceptable only where a rule-based step is not involved:
+                    // scenarios without DWARF, and steps through a function whose frame is too
+                    // large for a cacheable rule (such rows take the generic path, whose
+                    // failures end in the frame pointer fallback)
+                    let failing_fn_is_huge = frames_got.last().and_then(|s| u64::from_str_radix(&s[3..], 16).ok()).map_or(false, |a| {
+                        let rel = a.wrapping_sub(text_avma).wrapping_sub(if frames_got.len() > 1 { 1 } else { 0 });
+                        sc.funcs.iter().any(|f| {
+                            rel >= f.start && rel < f.start + f.len() && f.insns.iter().any(|i| matches!(i.eff, Eff::SubSp(n) if n >= 0x10000))
+                        })
+                    });
+                    !judged || failing_fn_is_huge
                 };
                 if !(prefix_ok && tail_ok) {
                     rep.add_finding(Finding {
